@@ -342,3 +342,31 @@ fn o2_2_resync_stops_at_first_undelivered() {
     kani::cover!(got && nb == packet_id::add(base, 3), "window resynchronised");
     std::mem::forget(r);
 }
+
+//@h props=C06,C04 tier=quick timeout=1800 role=receiver-partial-release
+//@fn PacketReceiver::{handle_datagram, resynchronize, receive, advance_window}, AssemblyWindow::{try_add, clear}
+//@bound W=4, base 2^20-2, receive limit 4 fragments; fragment 0 (1448 bytes) of a two-fragment Unreliable packet arrives, its second fragment never does; the window then passes it (a) by a sender resynchronisation or (b) by delivery of the next packet of the channel
+#[kani::proof]
+#[kani::unwind(6)]
+fn o6_2_partial_packet_released_when_window_passes_it() {
+    let base = 0xFFFFE;
+    let mut r = small(base, 1448 * 4);
+    let d = frame::Datagram { sequence_id: base, channel_id: 0, window_parent_lead: 0, channel_parent_lead: 0,
+                              fragment_id: 0, fragment_id_last: 1, data: vec![0u8; MAX_FRAGMENT_SIZE].into_boxed_slice() };
+    r.handle_datagram(d);
+    assert!(assembly_window::verif_assembly_window::alloc_of(&r.assembly_window) == 2 * MAX_FRAGMENT_SIZE, "[C06] a partial packet is charged its fragment-rounded size");
+    let mut sink = NullSink { n: 0 };
+    if kani::any() {
+        r.resynchronize(packet_id::add(base, 1));
+    } else {
+        let e = frame::Datagram { sequence_id: packet_id::add(base, 1), channel_id: 0, window_parent_lead: 0, channel_parent_lead: 0,
+                                  fragment_id: 0, fragment_id_last: 0, data: Box::new([1, 2]) };
+        r.handle_datagram(e);
+        r.receive(&mut sink);
+        assert!(sink.n == 1, "[C01] the later packet of the channel is delivered");
+    }
+    assert!(packet_id::sub(r.base_id(), base) >= 1, "[C11] the window moved past the abandoned packet");
+    assert!(assembly_window::verif_assembly_window::alloc_of(&r.assembly_window) == 0, "[C06] memory of a packet the window has passed is released (otherwise later packets are refused although the sender respects the limit)");
+    assert!(assembly_window::verif_assembly_window::invariant(&r.assembly_window));
+    std::mem::forget(r);
+}
